@@ -1887,8 +1887,16 @@ CaseX86M_GPB_MulDiv:
     case InstDB::kEncodingX86EnqcmdMovdir64b:
       if (isign3 == ENC_OPS2(Mem, Mem)) {
         const Mem& m0 = o0.as<Mem>();
+        const Mem& m1 = o1.as<Mem>();
+
+        // The register that holds the destination address has the size of the address of the source - it's the size of
+        // the source's base register, of its index register if there is no base register, or the native size if there
+        // is none (absolute address, label, and RIP relative source).
+        RegType addr_type = m1.has_base_reg() && m1.base_type() != RegType::kPC ? m1.base_type() :
+                            m1.has_index_reg() ? m1.index_type() : (is_32bit() ? RegType::kGp32 : RegType::kGp64);
+
         // This is the only required validation, the rest is handled afterwards.
-        if (ASMJIT_UNLIKELY(m0.base_type() != o1.as<Mem>().base_type() ||
+        if (ASMJIT_UNLIKELY(m0.base_type() != addr_type ||
                             m0.has_index() ||
                             m0.has_offset() ||
                             (m0.has_segment() && m0.segment_id() != SReg::kIdEs)))
